@@ -200,7 +200,10 @@ func (r *generateReader) ReadByte() (byte, error) {
 	default:
 		if r.escape { // Pretty useless here
 			r.escape = false
-			return r.ReadByte()
+			// Not an escape for $GENERATE itself (e.g. \. or \DDD inside a name):
+			// hand both the backslash and the character on to the zone parser.
+			r.mod.WriteByte(r.s[si])
+			return '\\', nil
 		}
 
 		return r.s[si], nil
